@@ -17,7 +17,7 @@ CHECKS = {
                 technique="TLA+ action properties (TLC) + exact post-state trace validation against WeakDom.tla"),
     "C11": dict(level="model_checking", ref="§4 C11, §2.3",
                 text="Clone actions of WeakDom.tla (three-way Ref rule) are model-checked against an independent 'exists a bijection' statement (CloneIso) and every real clone call in replayed/driven histories is validated against the action.",
-                note="Same trusted base as C09; overlapping roots passed to clone_multiple are outside the modelled precondition.",
+                note="Same trusted base as C09. Root lists with repeated or nested roots are modelled too (queue discipline, CloneEachComplete); for an instance copied twice in one call the specification records what the code does (only the copy recorded last has its Refs rewritten).",
                 technique="TLA+ CloneIso action property (TLC) + trace validation of real clone calls"),
     "C12": dict(level="model_checking", ref="§4 C12, §2.3, §2.4",
                 text="UidRule (relation form of inner_insert/inner_remove) is model-checked for UidDistinct/UidSetExact/UidStable; real histories with colliding ids are validated with the bookkeeping set exposed by hook H2.",
@@ -36,11 +36,11 @@ CHECKS = {
                 note="Chunk bodies are decompressed with the lz4/zstd crates before TLC sees them; files are kept small enough for TLC's interpreter.",
                 technique="TLA+ transcription of docs/binary.md (BinaryWire.tla) decoding real files inside TLC + structural invariants"),
     "C04": dict(level="model_checking", ref="§4 C04, §2.5",
-                text="MCForeignBinary.tla enumerates, for fixed logical forests, every combination of the freedoms docs/binary.md leaves open (class ids, referents, INST/PROP/PRNT orders, META/unknown chunks, service format, narrower numeric types, truncated/unknown-type PROP chunks, per-chunk compression). A foreign encoder written from the document concretises each abstract file; TLC first decodes the bytes with BinaryWire.tla and requires them to mean the logical forest (the encoder is held to the spec), then requires the forest rbx_binary read to be that forest.",
+                text="MCForeignBinary.tla enumerates, for fixed logical forests, every combination of the freedoms docs/binary.md leaves open (class ids, referents, INST/PROP/PRNT orders, META/unknown chunks, service format, narrower numeric types with large values, truncated/unknown-type PROP chunks, per-chunk compression, a declared class without instances, large sparse referents, properties unknown to the database). A foreign encoder written from the document concretises each abstract file; TLC first decodes the bytes with BinaryWire.tla and requires them to mean the logical forest (the encoder is held to the spec), then requires the forest rbx_binary read to be that forest.",
                 note="Two fixed forests; quick tier replays a seeded sample of the enumerated abstract files, thorough all of group 2 and 12000 of group 1. INST chunks precede PROP chunks as in the document's file structure.",
                 technique="TLA+ enumeration of spec-conformant encodings + independent encoder validated by the TLA+ decoder + trace validation of the real reader"),
     "C05": dict(level="model_checking", ref="§4 C02/C05, §2.6",
-                text="Writer direction: every document rbx_xml emits is parsed by an independent XML parser (expat) into a token tree and TLC evaluates DocInvariants (all structural clauses of the property) and DocIssues = {} with XmlValue, the per-type value decoder transcribed from docs/xml.md. Reader direction: an independent generator written from docs/xml.md emits documents varying referent style, property order, indentation, Meta/External, forward references, ProtectedString, url/uri, wrapped base64, number spellings, Properties placement; each document is first held to XmlFormat.tla itself, then the forest rbx_xml read must be the forest it describes.",
+                text="Writer direction: every document rbx_xml emits is parsed by an independent XML parser (expat) into a token tree and TLC evaluates DocInvariants (all structural clauses of the property) and DocIssues = {} with XmlValue, the per-type value decoder transcribed from docs/xml.md. Reader direction: an independent generator written from docs/xml.md emits documents varying referent style, property order, indentation, Meta/External, forward references, ProtectedString, url/uri, wrapped and indented base64, number spellings, Properties placement, position of the SharedStrings dictionary; each document is first held to XmlFormat.tla itself, then the forest rbx_xml read must be the forest it describes.",
                 note="Decimal text -> bit patterns is done by exact rational arithmetic in tools/xmltok.py (type-agnostic lexical views); which view a type uses is decided in TLA+. Two recorded findings (CR in strings, inf/NaN spelling inside CFrames).",
                 technique="independent XML parser + TLA+ value decoder from docs/xml.md (XmlFormat.tla) + independent document generator validated by the same spec"),
     "C06": dict(level="model_checking", ref="§4 C06, §2.6",
@@ -48,15 +48,15 @@ CHECKS = {
                 note="Values sampled; Content object references excluded (recorded C02 finding).",
                 technique="TLA+ cross-format equivalence (CrossFormatTrace.tla over XmlFormat/BinaryFormat/Reflection) + trace validation"),
     "C07": dict(level="model_checking", ref="§4 C07",
-                text="Model: MCBinaryColumns' OrderFree invariant (TLC) shows no property-map or alias-set iteration order reaches the writer's output. Implementation: logical forests (a function of seed and case) are built by three different construction histories with shuffled property insertion order in separate processes (fresh hash seeds, fresh Refs); DeterminismTrace.tla requires byte-identical binary (3 compressions) and XML output whenever the logical forest is equal, and save(load(save)) = save(load(save(load(save)))).",
+                text="Model: MCBinaryColumns' OrderFree invariant (TLC) shows no property-map or alias-set iteration order reaches the writer's output. Implementation: logical forests (a function of seed and case) (carrying explicit UniqueIds and instances with several SharedStrings) are built by four different construction histories (incl. moving every subtree to another DOM and back) with shuffled property insertion order in separate processes (fresh hash seeds, fresh Refs); DeterminismTrace.tla requires byte-identical binary (3 compressions) and XML output whenever the logical forest is equal, and save(load(save)) = save(load(save(load(save)))).",
                 note="Byte equality through BLAKE3 digests; constructions are those of harness/src/det.rs (inserts, scratch-holder + transfer_within + destroy, other-DOM + transfer).",
                 technique="TLA+ OrderFree invariant (TLC) + cross-process determinism traces judged by DeterminismTrace.tla"),
     "C08": dict(level="model_checking", ref="§4 C08, §2.5, App. B.3",
-                text="MCBinaryColumns.tla models collect_type_info and the per-instance value lookup with the real database as a constant; TLC checks AlwaysSucceeds / OwnValues / ColumnsExact / ExplicitWins for every subset assignment, sibling order, property-map and alias-set iteration order (and re-finds both repaired defects under the pre-fix rules). Every population (initial state) is built as a real DOM, written and read by rbx_binary, also instance by instance, and judged by BinaryFormat.tla (own values, defaults for lacking properties, success iff each instance succeeds alone).",
+                text="MCBinaryColumns.tla models collect_type_info and the per-instance value lookup with the real database as a constant; TLC checks AlwaysSucceeds / OwnValues / ColumnsExact / ExplicitWins for every subset assignment, sibling order, property-map and alias-set iteration order (and re-finds both repaired defects under the pre-fix rules). Every population (initial state) is built as a real DOM, written and read by rbx_binary, also instance by instance, in several processes, and judged by BinaryFormat.tla (own values, defaults for lacking properties, success iff each instance succeeds alone, the outcome AlwaysSucceeds predicts, the same outcome for every sibling order and process).",
                 note="Exhaustive for the listed classes/spellings and 2-3 instances; other classes are reached by C01's random generators. The Font enum -> Font face table is uninterpreted.",
                 technique="TLA+ state machine of the writer's column logic (TLC) + exhaustive population replay + trace validation"),
     "C13": dict(level="fault_enumeration", ref="§4 C13, §2.7",
-                text="IoFaults.tla models a byte source with short reads and Interrupted errors and is model-checked for schedule independence and truncation detection; every maximal schedule TLC prints is replayed (cycled) over valid binary (3 compressions), XML and attribute inputs on the real decoders, whose result must equal the whole-buffer result. Truncation at every offset must be an error, a sink failing at every output offset must surface as an error, byte/u32-field mutations at every offset, nesting depths up to 10^5 and seeded random bytes must end in ok/err - never panic, abort or hang. Outcome classes are judged by FaultTrace.tla.",
+                text="IoFaults.tla models a byte source with short reads and Interrupted errors and is model-checked for schedule independence and truncation detection; every maximal schedule TLC prints is replayed (cycled) over valid binary (3 compressions), XML and attribute inputs on the real decoders, whose result must equal the whole-buffer result. Truncation at every offset must be an error, a sink failing at every output offset must surface as an error, byte/u32-field mutations at every offset of files that hold one value of every type, nesting depths up to 10^5 and seeded random bytes must end in ok/err - never panic, abort or hang. Outcome classes are judged by FaultTrace.tla.",
                 note="Cases run in a child process under a 2 GiB address-space limit; aborts/hangs are attributed to the case announced last. Random bytes are explored, not exhausted; no memory-safety claim. One recorded finding (allocations sized by unchecked length fields).",
                 technique="TLA+ fault/schedule model (IoFaults.tla, TLC) + exhaustive fault enumeration on the real decoders judged by FaultTrace.tla"),
     "C14": dict(level="model_checking", ref="§4 C14, §2.7",
@@ -64,11 +64,11 @@ CHECKS = {
                 note="Values sampled; the envelope slot of colour keypoints is written as zero by the foreign encoder.",
                 technique="TLA+ transcription of docs/attributes.md (AttrWire.tla) + trace validation + independent encoder"),
     "C15": dict(level="model_checking", ref="§4 C15, §2.5-2.6",
-                text="For every Migrate descriptor of the exported database, every legacy value (all Enum.Font items, all BrickColor numbers, both booleans, URIs) and {legacy only, legacy + explicit new}, the four paths (binary write, XML write, binary read, XML read; read paths in both chunk/element orders) are executed and TLC evaluates MigIssues: legacy name absent, new property present, value = the specified migration (colour table, inset enum, content URI; Font uninterpreted), explicit value wins, all paths agree. The writer's alias choice is also model-checked (MCBinaryColumns: ExplicitWins).",
+                text="For every Migrate descriptor of the exported database, every legacy value (all Enum.Font items, all BrickColor numbers, both booleans, URIs) and {legacy only, legacy + explicit new}, the four paths (binary write, XML write, binary read, XML read; read paths in both chunk/element orders) are executed and TLC evaluates MigIssues: legacy name absent, new property present, value = the specified migration (colour table, inset enum, content URI; Font uninterpreted), explicit value wins, all paths agree; sibling cases put two instances with different legacy values and a bare one in one file. The writer's alias choice is also model-checked (MCBinaryColumns: ExplicitWins).",
                 note="Quick tier strides over the BrickColor numbers; thorough is exhaustive over the database's tables.",
                 technique="TLA+ MigIssues over the four logged paths (CrossFormatTrace.tla) + model-checked writer column logic"),
     "C16": dict(level="model_checking", ref="§4 C16, §2.2",
-                text="The whole bundled database (797 classes, 3242 descriptors, 7231 defaults, 458 enums) is exported from the working tree and each entry is one TLC state whose coherence predicate (Reflection.tla) is an invariant - exhaustive. Closure under the codec: every class populated with its default set and every serializable descriptor are written/read by rbx_binary and judged by BinaryFormat.tla.",
+                text="The whole bundled database (797 classes, 3242 descriptors, 7231 defaults, 458 enums) is exported from the working tree and each entry is one TLC state whose coherence predicate (Reflection.tla) is an invariant - exhaustive. The library's own lookup functions (superclasses, superclasses_iter, has_superclass, find_default_property) are run for every class and compared with Reflection.tla's Chain / DefaultOf (ReflectionLookupTrace.tla). Closure under the codec: every class populated with its default set and every serializable descriptor are written/read by rbx_binary and judged by BinaryFormat.tla.",
                 note="The export walks the public rbx_reflection API; a regenerated database is checked as it is. Quick tier samples the closure cases, thorough runs all.",
                 technique="TLA+ coherence predicates over the database as a constant (TLC, exhaustive) + codec closure traces"),
     "C17": dict(level="exploration", ref="§4 C17, §2.7",
@@ -76,7 +76,7 @@ CHECKS = {
                 note="The generic serde derives are identity checks to which the specification adds little (stated in DESIGN.md §5); serde_json is built with float_roundtrip in the harness.",
                 technique="TLA+ text-form model (TLC) + trace validation of serde/text round trips (TextTrace.tla)"),
     "C18": dict(level="model_checking", ref="§4 C18, §2.4",
-                text="TLC checks SharedString.tla for every interleaving of 3-4 threads (DataIntact, Dedup, EmptyAtQuiescence, deadlock freedom, liveness of the release window); every maximal interleaving of the 2-thread model is executed by real threads parked by hook H1 and validated step by step with the complete intern-table state; barrier snapshots of free-running threads must satisfy all invariants.",
+                text="TLC checks SharedString.tla for every interleaving of 3-4 threads (DataIntact, Dedup, EmptyAtQuiescence, deadlock freedom, liveness of the release window); every maximal interleaving of the 2-thread model is executed by real threads parked by hook H1 and validated step by step with the complete intern-table state; barrier snapshots of free-running threads must satisfy all invariants, and a pair phase (the only two holders of a content drop simultaneously, 150 000 times) must never leave a table entry behind.",
                 note="Trusted: hook H1 placement (between Arc::into_inner and the table lock), TLC, thread/op bounds of the model; Arc internals are not modelled below the strong count.",
                 technique="TLA+ spec SharedString.tla + TLC + deterministic schedule replay on real threads + trace validation"),
 }
